@@ -227,10 +227,16 @@ theorem not_mem_renderNetLine (c : Nat) (h : Odd c) (h58 : c ≠ 58) (i : Iface)
   exact ⟨odd_not_mem_padLeft c 6 _ h hn, h58, odd_not_mem_renderCells c _ h⟩
 
 /-- lines of a text-mode file whose lines contain neither `\n` nor `\r` -/
-theorem textLines_unlines (ls : List Bytes) (h10 : ∀ l ∈ ls, 10 ∉ l) (h13 : ∀ l ∈ ls, 13 ∉ l) :
-    textLines (unlines ls) = ls := by
+theorem textLines_unlines (univ : Bool) (ls : List Bytes) (h10 : ∀ l ∈ ls, 10 ∉ l)
+    (h13 : ∀ l ∈ ls, 13 ∉ l) : textLines univ (unlines ls) = ls := by
   unfold textLines
-  rw [univNl_id _ (not_mem_unlines 13 (by decide) ls h13), linesOf_unlines ls h10]
+  cases univ with
+  | true =>
+    simp only [if_true]
+    rw [univNl_id _ (not_mem_unlines 13 (by decide) ls h13), linesOf_unlines ls h10]
+  | false =>
+    simp only [Bool.false_eq_true, if_false]
+    exact linesOf_unlines ls h10
 
 theorem netFold_map {α : Type} (cfg : NetCfg) (xs : List α) (render : α → Bytes)
     (g : α → Bytes × List Nat) (h : ∀ x ∈ xs, netLine cfg (render x) = .ok (g x)) (d : Dict) :
